@@ -261,6 +261,14 @@ def pst_ops(chk, facts, bm_pst):
                     nm = ctor_ast(callee(t), t)
                     if nm and nm[2:] not in SKIP_CTORS:
                         calls.append((nm[2:], t))
+                    elif not nm and callee(t) in facts.fns and (facts.fns.meta(callee(t))[4] or "") == (facts.fns.meta(f.name)[4] or "-"):
+                        # a private wrapper of the same file around the extension-call builder (one level): the name table is
+                        # checked separately, so only `call_extension_fn` is looked through
+                        g = facts.fn(callee(t))
+                        inner = [ctor_ast(callee(t2), t2) for _, t2 in g.calls()] if g is not None else []
+                        inner = [x[2:] for x in inner if x and x[2:] not in SKIP_CTORS]
+                        if inner == ["call_extension_fn"]:
+                            calls.append(("call_extension_fn", t))
             if len(calls) != 1:
                 chk.ob(rule, "%s::%s" % (node, xn), False, "operator arm makes %d builder calls" % len(calls), where=f.where(), fn=f.name)
                 continue
